@@ -1242,6 +1242,17 @@ def loop_fragment_cases(rnd, n):
                     L.append("c = measure q;")
                 else:
                     L.append("%s q;" % rnd.choice(g2 if bad else g1))
+            elif rnd.random() < 0.3:
+                # modifiers on a basis gate (Lang/ModUnrollProofs.v): inv, pow(k) with k of any sign, composed
+                mods = " @ ".join(rnd.choice(["inv", "inv", "pow(2)", "pow(3)", "pow(0)", "pow(-1)", "pow(-2)", "pow(1)"]) for _ in range(rnd.randint(1, 3)))
+                c = rnd.random()
+                if c < 0.5:
+                    L.append("%s @ %s q[%d];" % (mods, rnd.choice([g for g in g1 if g != "sx"]), rnd.randrange(nq)))
+                elif c < 0.75:
+                    L.append("%s @ %s(%s) q[%d];" % (mods, rnd.choice(gp), rnd.choice(["0.5", "2", "1.25"]), rnd.randrange(nq)))
+                else:
+                    x, y = rnd.sample(range(nq), 2)
+                    L.append("%s @ %s q[%d], q[%d];" % (mods, rnd.choice(g2), x, y))
             else:
                 L.append(op(None, 0, -1))
         out.append(H3 + "\n".join(L) + "\n")
